@@ -1,6 +1,10 @@
-(* TrUcMem.v -- the allocating / string-level helpers of uc.c on the translated C text. *)
+(* TrUcMem.v -- the allocating / string-level helpers of uc.c on the translated C text (tools/c2clite.d/99zzzzz_ucmem.list;
+   uc_dup is translated by 56_undo.list): uc_cat, uc_dup, uc_lastline, uc_sub, uc_trim.  The models are in UcMemDefs.v (and
+   UcDefs.uc_sub).  malloc appends a fresh block: a result `Ok (VPtr (length m) 0, m ++ [blk])` says that the returned
+   pointer is fresh, that the new block holds exactly blk, and that no other block changed. *)
 From Coq Require Import List ZArith NArith Bool Lia.
 From NV Require Import Bytes UcDefs CLite CLiteProps GenCFuncs CLiteTac TrUcCode TrUc.
+From NV Require Export UcMemDefs.
 Import ListNotations.
 Local Open Scope Z_scope.
 
@@ -84,15 +88,6 @@ Proof.
 Qed.
 
 (* ------------------------------------------------------------------ uc_lastline: strrchr(s, '\n') *)
-(* the index of the last byte c of s (positions counted from n), [last] if there is none *)
-Fixpoint find_last (c : N) (s : bytes) (n : nat) (last : option nat) : option nat :=
-  match s with
-  | [] => last
-  | x :: r => find_last c r (S n) (if (x =? c)%N then Some n else last)
-  end.
-(* uc_lastline(s) - s *)
-Definition uc_lastline (s : bytes) : nat := match find_last 10 s 0 None with Some k => S k | None => 0%nat end.
-
 Lemma scanlast_cstr (t : bytes) c : nonul t -> (c < 256)%N -> c <> 0%N -> forall n last,
   scanlast (cstr_block (zb t)) (wrap I8 (Z.of_N c)) n last = Ok (find_last c t n last).
 Proof.
@@ -258,6 +253,20 @@ Proof.
   - exfalso. apply (proj1 Hx eq_refl). reflexivity.
 Qed.
 
+(* the two defined cases in one statement (UcMemDefs.uc_sub_t) *)
+Theorem tr_uc_sub_total m b s o beg en t d fuel :
+  str_at m b s -> nonul s -> (o <= length s)%nat -> (length s < fuel)%nat -> Z.of_nat (length s) < 2147483647 ->
+  (G_lit__0 < length m)%nat ->
+  uc_sub_t (skipn o s) beg en = Some t ->
+  callf cprog fuel (S (S (S (S d)))) F_uc_sub [VPtr b (Z.of_nat o); VInt beg; VInt en] m
+  = Ok (VPtr (length m) 0, m ++ [cstr_block (zb t)]).
+Proof.
+  intros Hs Hn Ho Hf Hmax Hg Ht. unfold uc_sub_t in Ht.
+  destruct (uc_chr (skipn o s) beg) as [pb|] eqn:Eb; destruct (uc_chr (skipn o s) en) as [pe|] eqn:Ee; try discriminate.
+  - apply (tr_uc_sub m b s o beg en t d fuel); try assumption. unfold UcDefs.uc_sub. rewrite Eb, Ee. exact Ht.
+  - injection Ht as <-. apply (tr_uc_sub_out m b s o beg en d fuel); assumption.
+Qed.
+
 (* ---- which offsets uc_chr resolves: negative ones (the terminator) and 0 .. uc_slen(s) *)
 Lemma uc_slen_f_fuel : forall k1 k2 t, (length t <= k1)%nat -> (length t <= k2)%nat -> uc_slen_f k1 t = uc_slen_f k2 t.
 Proof.
@@ -309,19 +318,6 @@ Proof.
 Qed.
 
 (* ------------------------------------------------------------------ uc_trim (fix a04410e) *)
-(* int n = strlen(s), i = 0; while (i < n && i + uc_len(s + i) <= n) i += uc_len(s + i);   t = the suffix s + i *)
-Fixpoint trim_idx_f (fuel : nat) (t : bytes) (i : nat) : nat :=
-  match fuel with
-  | O => i
-  | S f => match t with
-           | [] => i
-           | _ :: _ => let l := uc_len t in if (l <=? length t)%nat then trim_idx_f f (skipn l t) (i + l) else i
-           end
-  end.
-Definition trim_idx (s : bytes) : nat := trim_idx_f (length s) s 0.
-(* ... s[i] = '\0': the C string left in s *)
-Definition uc_trim (s : bytes) : bytes := firstn (trim_idx s) s.
-
 (* uc_len reads one cell: stated for any memory in which that load succeeds (the string may sit in a larger array) *)
 Lemma uc_len_load m b z c d fuel : load m b z = Ok (VInt (Z.of_N c)) -> (c < 256)%N ->
   callf cprog fuel (S d) F_uc_len [VPtr b z] m = Ok (VInt (Z.of_nat (uc_len_b c)), m).
